@@ -458,9 +458,12 @@ func (c connectStreamClientProtocol) encodeEnd(op *operation, end *responseEnd, 
 	length := buffer.Len()
 	limit := op.methodConf.maxMsgBufferBytes
 	if length > int(limit) {
-		return nil
+		// Too large to relay as is. The stream must still end with an end-stream
+		// message, so send a short one saying so (with no metadata).
+		buffer.Reset()
+		buffer.WriteString(`{"error":{"code":"resource_exhausted","message":"end of stream message exceeds max buffer size"}}`)
 	}
-	env := envelope{trailer: true, length: uint32(buffer.Len())} //nolint:gosec // Length is validated above.
+	env := envelope{trailer: true, length: uint32(buffer.Len())} //nolint:gosec // Bounded by the limit or the short message above.
 	envBytes := c.encodeEnvelope(env)
 	_, _ = writer.Write(envBytes[:])
 	_, _ = buffer.WriteTo(writer)
